@@ -17,6 +17,9 @@ from . import C03, C07, C08
 TEXT = {
     "C11.no-alloc": "no new / delete other than reserved placement new; no call resolving to operator new/delete, malloc, calloc, realloc, free, aligned_alloc, "
                     "strdup; the headers include only <stdint.h>, <string.h>, <new>, <typeindex>, <intrin.h>",
+    "C11.fork-index": "in the general RegistryT (machines with orthogonal regions, where a fork id is positive for composite and negative for orthogonal "
+                      "forks) every subscript compoX[forkId - 1] lies on a path on which that fork id was tested > 0 since it was last assigned: an "
+                      "orthogonal fork id would index far outside the composite arrays",
     "C11.bounded-growth": "a function that writes arr[n] (or constructs at &arr[n]) and then increments the member counter n must test n < capacity before the "
                           "write, or every call site must; exemption: BitWriteStreamT::write (bounded by C08.budget)",
     "C11.one-past": "a subscript with index width/8 into a view of ceil(width/8) units is guarded by width % 8 != 0",
@@ -29,7 +32,7 @@ TEXT = {
                       "hand out slot INVALID",
     "C11.memcpy": "overwriteWith / fill / reinterpret are instantiated only with trivially copyable operands, destination at least as large as the source",
 }
-MIN_INSTANCES = {"C11.no-alloc": 3, "C11.bounded-growth": 2, "C11.one-past": 1, "C11.views": 1, "C11.shifts": 5, "C11.memcpy": 2}
+MIN_INSTANCES = {"C11.fork-index": 8, "C11.no-alloc": 3, "C11.bounded-growth": 2, "C11.one-past": 1, "C11.views": 1, "C11.shifts": 5, "C11.memcpy": 2}
 ALLOWED_INCLUDES = {"<stdint.h", "<string.h", "<new", "<typeindex", "<intrin.h"}
 ALLOC_NAMES = {"malloc", "calloc", "realloc", "free", "aligned_alloc", "strdup", "operator new", "operator delete", "operator new[]", "operator delete[]",
                "posix_memalign", "alloca"}
@@ -45,6 +48,7 @@ def declare(ctx):
 def check(ctx, F):
     _FN["F"] = F
     check_no_alloc(ctx, F)
+    check_fork_index(ctx, F)
     check_growth(ctx, F)
     check_one_past(ctx, F)
     check_views(ctx, F)
@@ -54,6 +58,49 @@ def check(ctx, F):
     if C08.has_serial(F):
         C08.check_budget(C03._Alias(ctx, {"C08.budget": "C11.stream-budget"}), F)
     C07.check_reset(C03._Alias(ctx, {"C07.reset": "C11.pool-reset"}), F)
+
+
+_FORK_SUB = re.compile(r"compo\w+\._items\[\(([\w:.]*)\.forkId-#1\)\]")
+
+
+def check_fork_index(ctx, F):
+    for fid, b in insts(F, "RegistryT", None, spec="general"):
+        if not any(n.startswith("compo") for n in b.get("mems", ())):
+            continue
+        site = "RegistryT<general>::" + b["name"]
+        bad = None
+        used = 0
+        for p in sym_paths(F, fid, 2):
+            ctx.paths += 1
+            positive = set()          # symbols whose forkId is known > 0 on this path
+            for ev in p:
+                texts = []
+                if ev[0] == "assume":
+                    m = re.search(r"\(?([\w:.]*)\.forkId>#0\)?$", ev[2])
+                    if m:
+                        if ev[3]:
+                            positive.add(m.group(1))
+                        continue
+                    texts = [ev[2]]
+                elif ev[0] == "write":
+                    texts = [ev[2], ev[3] or ""]
+                elif ev[0] == "ret":
+                    texts = [ev[2] or ""]
+                elif ev[0] == "call":
+                    texts = [ev[3] or ""] + list(ev[4] or [])
+                    if ev[2] is not None and F.fn(ev[2])["name"] == "operator=" and (ev[3] or "").startswith("L:"):
+                        positive.discard(ev[3])          # the walk moved on to another ancestor
+                for t in texts:
+                    for m in _FORK_SUB.finditer(t or ""):
+                        used += 1
+                        if m.group(1) not in positive:
+                            bad = "compo…[%s.forkId - 1]" % m.group(1)
+        if used:
+            ctx.instance("C11.fork-index", site, {"function": site, "loc": F.floc(fid), "subscripts_seen": used})
+        if bad:
+            ctx.violation("C11.fork-index", site, "%s (%s)" % (site, F.floc(fid)),
+                          "%s is used on a path where the fork id was not tested > 0: for a child of an orthogonal region the id is negative and the subscript "
+                          "lands far outside the array" % bad, {})
 
 
 def check_no_alloc(ctx, F):
